@@ -144,7 +144,11 @@ def line_polygon_intersections(polygon, line, bound_line = (True,True)):
     crossings = [np.array(c) for c, i in ind.items()]
     # Remove duplicates and sort by distance from start of line:
     d = np.array([norm(c - line[0]) for c in crossings])
-    if len(d) > 0: d = d / max(d[-1], 1) # non-dimensionalise
+    if len(d) > 0:
+        # non-dimensionalise, relative to the size of the polygon (not to the
+        # distance from the start of the line, which may be far away):
+        scale = max([norm(p - ref) for p in polygon])
+        d = (d - min(d)) / (scale if scale > 0 else 1)
     d = d.round(decimals = 3)
     d_unique, i_unique = np.unique(d, return_index = True)
     sortindex = np.argsort(d_unique)
